@@ -55,11 +55,11 @@ class Unit:
                 pre, plan, consts, lemmas = self.gen(ctx, p)
                 asm = assemble.assemble_program(p, items[p.name], plan, consts)
             except (assemble.LostAnchor, rtok_error()) as e:
-                ctx.undecided.append('lost-anchor %s: %s' % (p.name, e))
+                self._lost_anchor(ctx, p, str(e))
                 continue
             missing = [k for k in list(plan) + list(consts) if k not in asm.seen_keys]
             if missing:
-                ctx.undecided.append('lost-anchor %s: generated function(s) not found: %s' % (p.name, missing))
+                self._lost_anchor(ctx, p, 'generated function(s) not found: %s' % (missing,))
                 continue
             text = self.verus_text(ctx, p, pre, asm, lemmas)
             expected = []
@@ -79,6 +79,14 @@ class Unit:
                 if s:
                     ctx.samples.append(s)
         return mods
+
+    def _lost_anchor(self, ctx, p, why):
+        """The expansion no longer has the shape the contracts are keyed on (a refactored template): never a violation.  The program's
+        obligations are recorded as undecided so that the bounded Kani twins can stand in (kani_fallback)."""
+        o = core.Obligation('%s/lost-anchor' % p.name, p.name, 'lost-anchor', 'verus', [ctx.pid])
+        o.status = 'undecided'
+        o.detail = 'verus status=error (not run)\nlost-anchor: %s' % why
+        ctx.obligations.append(o)
 
     def kani_crate(self, ctx, progs):
         d = os.path.join(ctx.dir, 'kani')
